@@ -201,8 +201,15 @@ fn eval_inject(case: &Case, rc: &RunCfg) -> Outcome {
     }
     let cbs = base.callbacks.clone();
     let mut runs = 1u32;
+    // long histories: enumerate the injection points of the last `inject_tail` operations only
+    let tail = case.get_i64("inject_tail", 0);
+    let from = if tail > 0 { cbs.len().saturating_sub(tail as usize) } else { 0 };
     for (i, n) in cbs.iter().enumerate() {
-        for j in 0..*n {
+        if i < from {
+            continue;
+        }
+        // a purge may make hundreds of callbacks: all of the first 40, then every 7th
+        for j in (0..*n).filter(|j| *j < 40 || j % 7 == 0 || *j + 3 >= *n) {
             let mut r = rc.clone();
             r.inject = Some((i, j));
             r.trace = false;
@@ -370,6 +377,7 @@ pub fn jobs(pn: u32, tier: Tier) -> Vec<Job> {
             v.push(job("seg-long-histories", random(seg_cases(id, SegMix { w: [50, 24, 6, 1, 2, 12, 8], len: 100..=600, thorough: !q, only_small: false }), n(400, 10_000)), rule.clone(), &["chunk_ge_17_entries"]));
             v.push(job("seg-long-histories-small-domains", random(seg_cases(id, SegMix { w: [50, 24, 6, 1, 2, 12, 8], len: 100..=600, thorough: !q, only_small: true }), n(300, 8_000)), rule.clone(), &["chunk_ge_17_entries"]));
             v.push(job("seg-insert-bursts", random(seg_cases(id, SegMix { w: [80, 3, 5, 0, 1, 12, 1], len: 200..=700, thorough: !q, only_small: false }), n(300, 8_000)), rule.clone(), &["query_ge_65_expired_copies"]));
+            v.push(job("seg-hot-spots", random(seg_hot_cases(id, [14, 4, 2, 0, 1, 3, 1], 150..=700, false, None), n(400, 10_000)), rule.clone(), &["chunk_ge_65_entries"]));
             v.push(job("seg-32-all-pairs-x-3-times", JobKind::Fixed { cases: seg_pair_cases(id, true), stop_on_first: false }, Rule::any("every (insert range, query range) pair over the 32-point domain at t in {exp-1, exp, exp+1}", &["query_t_eq_exp"]), &[]));
         }
         4 | 5 => {
@@ -447,6 +455,7 @@ pub fn jobs(pn: u32, tier: Tier) -> Vec<Job> {
             }
             v.push(job("seg", random(seg_cases(id, SegMix { w: [30, 30, 12, 2, 4, 10, 10], len: 0..=60, thorough: !q, only_small: false }), n(8_000, 200_000)), rule.clone(), &[]));
             v.push(job("seg-long", random(seg_cases(id, SegMix { w: [50, 20, 8, 1, 3, 12, 6], len: 100..=600, thorough: !q, only_small: false }), n(300, 8_000)), rule.clone(), &[]));
+            v.push(job("seg-hot-spots", random(seg_hot_cases(id, [14, 4, 2, 0, 1, 3, 1], 150..=700, false, None), n(300, 8_000)), rule.clone(), &[]));
             v.push(job("map-tree-insertion-runs", random(ord_runs_cases(id, "map", "tree", vec!["u64", "string"], [0, 4, 2, 0, 0, 2, 1, 2, 0, 0]), n(400, 10_000)), rule.clone(), &[]));
             v.push(job("set-tree-insertion-runs", random(ord_runs_cases(id, "set", "tree", vec!["u64", "bare"], [0, 4, 2, 0, 0, 2, 1, 2, 4, 1]), n(400, 10_000)), rule.clone(), &[]));
             v.push(job("set-list-insertion-runs", random(ord_runs_cases(id, "set", "list", vec!["u64"], [0, 4, 2, 0, 0, 2, 1, 2, 4, 1]), n(200, 5_000)), rule.clone(), &[]));
@@ -532,6 +541,7 @@ pub fn jobs(pn: u32, tier: Tier) -> Vec<Job> {
             // inserts on one tree (tiling / copy-count oracle on both), then longer insert sequences
             v.push(job("seg-32-all-consecutive-insert-pairs", JobKind::Fixed { cases: seg_insert_pair_cases(id), stop_on_first: false }, Rule::default(), &["ins_ge_5_copies"]));
             v.push(job("seg-32-insert-sequences", random(seg_cases(id, SegMix { w: [40, 30, 0, 2, 2, 10, 10], len: 0..=40, thorough: false, only_small: true }), n(4_000, 100_000)), Rule::any("a history with >=2 inserts before a query", &["query_ge2_answers_multi_place", "ins_ge_5_copies"]), &[]));
+            v.push(job("seg-32-hot-spots-long", random(seg_hot_cases(id, [14, 5, 1, 0, 1, 3, 2], 150..=700, true, None), n(400, 10_000)), Rule::any("a history with >=2 inserts before a query", &["query_ge2_answers_multi_place", "ins_ge_5_copies"]), &["chunk_ge_65_entries"]));
         }
         16 => {
             let rule = Rule::all("a fully consumed query issued while >=1 expired copy was physically stored", &["c16_nontrivial"]);
@@ -539,6 +549,7 @@ pub fn jobs(pn: u32, tier: Tier) -> Vec<Job> {
             v.push(job("seg-histories-small-domains", random(seg_cases(id, SegMix { w: [34, 16, 16, 1, 14, 10, 6], len: 0..=60, thorough: !q, only_small: true }), n(8_000, 200_000)), rule, &["whole_domain_query"]));
             v.push(job("seg-long-histories", random(seg_cases(id, SegMix { w: [50, 14, 8, 1, 8, 12, 4], len: 100..=600, thorough: !q, only_small: false }), n(400, 10_000)), Rule::all("a fully consumed query issued while >=1 expired copy was physically stored", &["c16_nontrivial"]), &["chunk_ge_17_entries"]));
             v.push(job("seg-insert-bursts", random(seg_cases(id, SegMix { w: [80, 3, 5, 0, 2, 12, 1], len: 200..=700, thorough: !q, only_small: false }), n(300, 8_000)), Rule::all("a fully consumed query issued while >=1 expired copy was physically stored", &["c16_nontrivial"]), &["query_ge_65_expired_copies"]));
+            v.push(job("seg-hot-spots", random(seg_hot_cases(id, [14, 3, 2, 0, 2, 3, 1], 150..=700, false, None), n(400, 10_000)), Rule::all("a fully consumed query issued while >=1 expired copy was physically stored", &["c16_nontrivial"]), &["chunk_ge_65_entries"]));
         }
         17 => {
             let rule = Rule::all("an insertion during which the parent link of a held entry changed (rotation around a designated entry)", &["rotation_around_held_entry"]);
@@ -563,6 +574,13 @@ pub fn jobs(pn: u32, tier: Tier) -> Vec<Job> {
                 v.push(job(&format!("set-{}-compound", coll), random(with_cfg(ord_cases(id, ord_mix("set", coll, &["u64", "string"], &[8, 16, 64], ow, 0..=80, 1)), "mode", "compound"), n(1_500, 40_000)), Rule::all(">=1 injected panic delivered (compounding mode)", &["injection_delivered_compound"]), &[]));
             }
             v.push(job("seg-exhaustive", random(seg_cases(id, SegMix { w: [34, 30, 14, 1, 6, 8, 6], len: 0..=14, thorough: false, only_small: false }), n(2_400, 60_000)), rule.clone(), &[]));
+            v.push(job("seg-hot-compound", random(seg_hot_cases(id, [14, 4, 2, 0, 1, 3, 1], 100..=500, false, Some(("mode", "compound"))), n(100, 3_000)), Rule::all(">=1 injected panic delivered (compounding mode)", &["injection_delivered_compound"]), &["chunk_ge_65_entries"]));
+            v.push(job("seg-hot-tail-exhaustive", random(seg_hot_cases(id, [14, 4, 2, 0, 1, 3, 1], 100..=400, false, Some(("inject_tail", "5"))), n(40, 1_000)), rule.clone(), &[]));
+            for coll in ["tree", "list"] {
+                v.push(job(&format!("key-{}-big-tail-exhaustive", coll), random(with_cfg(key_cases(id, key_mix(coll, &[300, 3000], 1500, 30, [50, 6, 6, 6, 8, 16, 0, 1], 200..=800, None)), "inject_tail", "5"), n(10, 300)), rule.clone(), &[]));
+                v.push(job(&format!("map-{}-big-tail-exhaustive", coll), random(with_cfg(ord_cases(id, ord_mix("map", coll, &["u64", "string"], &[1000, 3000], ow, 200..=800, 1)), "inject_tail", "5"), n(10, 300)), rule.clone(), &[]));
+                v.push(job(&format!("set-{}-big-tail-exhaustive", coll), random(with_cfg(ord_cases(id, ord_mix("set", coll, &["u64", "string"], &[1000, 3000], ow, 200..=800, 1)), "inject_tail", "5"), n(10, 300)), rule.clone(), &[]));
+            }
         }
         19 => {
             let rule = Rule::all("export of a tree/list physically holding >=12 entries (the size at which the original over-allocation exceeded the bound)", &["export_cap_ge_12"]);
@@ -593,6 +611,11 @@ fn with_cfg(s: BoxedStrategy<Case>, key: &'static str, val: &'static str) -> Box
     use proptest::strategy::Strategy;
     s.prop_map(move |mut c| {
         c.set(key, val);
+        if key == "inject_tail" {
+            // the whole history is re-executed once per injection point: no per-step snapshots
+            // (the state after each injected panic is validated from its own snapshot)
+            c.set("snap", 0);
+        }
         c
     })
     .boxed()
